@@ -77,6 +77,21 @@ def analyse(ll, nthreads, opts=None, log=None, mode='sc'):
             res['violations'].append({'assertion': 'memory: object %s touched after its release (%s then %s)' % (sc.obj_by_base[f.obj].name, f.site, e.site),
                                       'trace': M.trace(model), 'nondet': nondet_of(M, model)})
         elif r == 'unknown': res['undecided'].append('lifetime query: ' + str(q.get('reason')))
+    if mode == 'hb':
+        # C++20 happens-before over the SC executions: data races (C03)
+        hbc = M.build_hb()
+        races = M.race_items()
+        res['race_pairs'] = len(races)
+        if races:
+            r, model, q = M.solve(hbc + [z3.Or(*[c for (_, _, c) in races])], 'data race: %d conflicting access pairs, at least one non-atomic, unordered by happens-before' % len(races))
+            if r == 'sat':
+                hit = [(a, b) for (a, b, c) in races if z3.is_true(model.eval(c, model_completion=True))]
+                a, b = hit[0]
+                oa = sc.obj_by_base.get(a.obj)
+                res['violations'].append({'assertion': 'data race: %s (%s %s) and %s (%s %s) on %s+%d are not ordered by happens-before' %
+                                          (a.site, a.kind, a.order, b.site, b.kind, b.order, oa.name if oa else '?', a.addr - (oa.base if oa else 0)),
+                                          'trace': M.trace(model), 'nondet': nondet_of(M, model), 'race': True})
+            elif r == 'unknown': res['undecided'].append('race query: ' + str(q.get('reason')))
     dl = M.deadlock_cond()
     if dl is not None:
         r, model, q = M.solve([dl], 'deadlock: a thread blocked forever')
@@ -139,14 +154,19 @@ def run_scenario(spec):
         exe = None
         for v in r['violations']:
             sch = schedule_of(v['trace'], spec['nthreads'])
-            rec = {'assertion': v['assertion'], 'schedule': sch, 'nondet': v['nondet'],
+            rec = {'assertion': v['assertion'], 'schedule': sch, 'nondet': v['nondet'], 'race': bool(v.get('race')),
                    'trace': [{k: row[k] for k in ('clk', 'tid', 'kind', 'order', 'obj', 'read', 'write', 'site')} for row in v['trace']]}
             if spec.get('replay', True):
                 import e2replay
                 try:
-                    if exe is None: exe = e2replay.build(ll, wd, sanitize=False)
-                    rc, err = e2replay.run(exe, sch, v['nondet'], wd)
-                    ok, how = e2replay.classify(rc, err)
+                    if v.get('race'):
+                        texe = e2replay.build_tsan(ll, wd)
+                        rc, err = e2replay.run(texe, sch, v['nondet'], wd)
+                    else:
+                        if exe is None: exe = e2replay.build(ll, wd, sanitize=False)
+                        rc, err = e2replay.run(exe, sch, v['nondet'], wd)
+                    ok, how = e2replay.classify(rc, err, tsan=bool(v.get('race')))
+                    if v.get('race') and 'ThreadSanitizer: data race' not in err: ok = False
                     if not ok and v['assertion'].startswith('memory:'):
                         # lifetime violations do not crash a native run by themselves: confirm with valgrind under the same schedule
                         rc, err = e2replay.run(exe, sch, v['nondet'], wd, valgrind=True)
@@ -175,7 +195,7 @@ def replay(rep):
     try:
         cpp = rep['cpp'] if os.path.isabs(rep['cpp']) else os.path.join(VERIF, 'harness', rep['cpp'])
         ll = compile_scenario(cpp, wd, rep.get('defines', ()))
-        exe = e2replay.build(ll, wd, sanitize=False)
+        exe = e2replay.build_tsan(ll, wd) if rep.get('race') else e2replay.build(ll, wd, sanitize=False)
         rc, err = e2replay.run(exe, [tuple(x) for x in rep['schedule']], [tuple(x) for x in rep['nondet']], wd)
         ok, how = e2replay.classify(rc, err)
         if not ok and rep.get('assertion', '').startswith('memory:'):
@@ -251,7 +271,7 @@ def run_unit(prop, unit, tier, out, known, workdir):
             h = hashlib.md5((r['name'] + v['assertion']).encode()).hexdigest()[:10]
             rpath = os.path.join(rdir, '%s_%s.json' % (r['name'], h))
             rep = {'property': prop, 'engine': 'e2', 'cpp': unit['tu'], 'defines': r['defines'], 'nthreads': r['nthreads'], 'scenario': r['name'],
-                   'assertion': v['assertion'], 'schedule': v['schedule'], 'nondet': v['nondet'], 'trace': v['trace'],
+                   'assertion': v['assertion'], 'schedule': v['schedule'], 'nondet': v['nondet'], 'trace': v['trace'], 'race': v.get('race', False),
                    'replay_outcome': v.get('how')}
             json.dump(rep, open(rpath, 'w'), indent=1)
             if v.get('reproduced'):
